@@ -70,9 +70,39 @@ def _per_format(res):
     return out
 
 
+def _reference_mpq_seeds(scratch, seed):
+    """MPQ flavours the builder cannot emit, written by the independent writer lib/refmpq.py: deleted markers in probe
+    chains, all-ones never-used entries, junk / user-data prefix before the header, V2 header, uncompressed multi-sector
+    files without sector table, per-sector raw-if-not-smaller, and PATCH_FILE-flagged entries."""
+    import random
+    import struct
+    import refmpq
+    d = os.path.join(scratch, "mpqseeds")
+    os.makedirs(d, exist_ok=True)
+    rng = random.Random(1000 + seed)
+    k = 0
+    for version in (1, 2):
+        for (prefix, user_data) in ((0, False), (0x200, False), (0x400, True)):
+            for method in (0, 0x02, 0x10):
+                ss = 512
+                files = []
+                for i, n in enumerate((0, 5, 511, 513, 1600)):
+                    data = bytes(rng.getrandbits(8) for _ in range(n // 2)) + b"A" * (n - n // 2)
+                    files.append(refmpq.RefFile("Seed\\File%d.bin" % i if i % 2 else "file%d.txt" % i, data, method, encrypt=(i == 3), fix_key=(i == 3 and method == 0)))
+                # a PATCH_FILE entry: TPatchInfo (length 28, flags, data size, md5) followed by a tiny COPY patch body
+                body = b"PTCH" + struct.pack("<III", 12 + 24 + 12 + 4, 0, 4) + b"MD5_" + struct.pack("<I", 40) + bytes(32) + b"XFRM" + struct.pack("<I", 12 + 4) + b"COPY" + b"abcd"
+                raw = struct.pack("<III", 28, 0, len(body)) + bytes(16) + body
+                files.append(refmpq.RefFile("Seed\\patched.bin", b"abcd", 0, single_unit=True, flags_extra=refmpq.FLAG_PATCH_FILE, raw_stored=raw))
+                arc, _ = refmpq.write_archive(files, version=version, shift=0, prefix=prefix, user_data=user_data, deleted_probes=3 if k % 2 else 0, listfile=True)
+                with open(os.path.join(d, "ref-v%d-p%x-m%02x-%d.mpq" % (version, prefix, method, k)), "wb") as f:
+                    f.write(arc)
+                k += 1
+    return d
+
+
 def run(tier, seed, scratch, t0):
     res = sup.Result("C05")
-    seeds_dir = os.environ.get("VERIF_C05_MPQ_SEEDS")
+    seeds_dir = os.environ.get("VERIF_C05_MPQ_SEEDS") or _reference_mpq_seeds(scratch, seed)
     for pkg, binname, extra in WORKERS:
         binpath = sup.build(pkg, binname)
         args = list(extra)
